@@ -26,10 +26,31 @@ def expected_from_recorder(rec, tbl, union):
     return out
 
 
+def align_closed(exp, got):
+    """exp: ground-truth records in order of completion, some with exit == 'closed'; got: [(qualname, no_return_type)] of the
+    logged traces.  A closed call is kept (as a call that raised) if the next logged trace is its, and dropped otherwise."""
+    if not any(e["exit"] == "closed" for e in exp):
+        return exp
+    keep, i = [], 0
+    for e in exp:
+        if e["exit"] == "closed":
+            if i < len(got) and got[i][0] == e["qualname"] and got[i][1]:
+                keep.append(dict(e, ret=None))
+                i += 1
+            continue
+        keep.append(e)
+        i += 1
+    return keep
+
+
 def compare_with_truth(chk, logger, expected, tbl, unresolved, case):
     """the property, on the implementation: one faithful trace per completed call, in order of completion"""
     exp = [e for e in expected if e["qualname"] not in unresolved]
     got = logger.traces
+    # a generator that was dropped while suspended did not return; CPython closes it, and depending on where it was parked its
+    # frame either ends by the GeneratorExit (then the tracer logs it like any call that raised) or stays at the yield (nothing
+    # is logged).  Both are faithful; such a call is matched if it was logged and skipped if it was not.
+    exp = align_closed(exp, [(t.func.__code__.co_qualname, t.return_type is None) for t in got])
     if len(got) != len(exp):
         chk.fail("count", dict(case, detail="%d traces logged, %d calls of resolvable functions completed" % (len(got), len(exp)),
                                logged=[t.func.__code__.co_qualname for t in got][:40], completed=[e["qualname"] for e in exp][:40]))
@@ -69,14 +90,14 @@ def run(pid, tier, seed):
     drv = leanio.LeanDriver()
     pd = programs.ProgramDir("mtv_c02_")
     try:
-        for pi in range(12 if quick else 150):
+        for pi in range(12 if quick else 1500):
             k = (0, 3)[pi % 2]
             name = "c02prog_%d_%d" % (seed % 1000, pi)
             src, funcs = programs.gen_module(chk.rng, name)
             typer = lambda v: sexp.dumps(tyconv.canon(tyconv.ty_to_tree(get_type(v, k), tbl)))
             rec = recorder.install(typer)
             mod, path = pd.load(name, src)
-            steps = programs.make_workload(chk.rng, funcs, chk.rng.randrange(30, 80))
+            steps = programs.make_workload(chk.rng, funcs, chk.rng.randrange(30, 80), abandon=(pi % 3 != 0))
             admit = lambda code, path=path: code.co_filename == path
             logger, er, tracer, draws, _ = tracerun.run_traced(lambda: programs.run_workload(mod, steps), admit, tbl, k)
             chk.evaluations += 1
@@ -85,7 +106,10 @@ def run(pid, tier, seed):
                 chk.rel("corr.C02.stream_wellformed", False, dict(case, detail=er.malformed[:3]))
             else:
                 chk.rel("corr.C02.stream_wellformed", True)
-            if tracer.traces:
+            abandoned = any(st[0] == "gen_abandon" for st in steps)
+            if tracer.traces and not abandoned:
+                # (a generator dropped while suspended is closed at its yield and never completes: its entry legitimately
+                #  stays; the number of entries left is still compared with the model's below)
                 chk.fail("residue", dict(case, detail="%d per-call entries left in the tracer" % len(tracer.traces)))
             unresolved = {c.co_qualname for c in er.codes if tracer.cache.get(c) is None}
             for q in unresolved:
